@@ -47,6 +47,9 @@ CLAIMED["C15"] = ("model-based property testing: exhaustive (shape x limit x dep
 CLAIMED["C14"] = ("differential testing of the implementation against itself across fresh processes with different memory layouts (ASLR on/off, allocation noise, environment size, evaluating thread, per-process hash seeds) and repeated in-process runs; byte-equality oracle on the full observable output incl. errors, lint and static-typecheck output",
     "Exploration: batches of generated programs (with determinism probes and failing statements that produce suggestions and call stacks) must produce byte-identical observations in four differently laid-out processes and on repetition.",
     "Layout differences are induced, not enumerated; a dependence that needs a specific address pattern can stay hidden.", "DESIGN.md §5 C14")
+CLAIMED["C13"] = ("stateful property testing of drop-order histories over an object graph (frozen modules, load chains, owned handles, modules built from handles, temporary Globals), invariant checked after every step, freed arenas poisoned (hook H2), drops also on other threads",
+    "Exploration: after every step every value still reachable from a live root must encode exactly as at creation (values read through add_to_heap and by_ref, functions called); a premature release reads 0x5A poison and crashes the isolated worker or changes the encoding.",
+    "Relies on hook H2; only library-owned reference operations are generated (documented caller obligations are excluded).", "DESIGN.md §5 C13")
 NOT_YET = {}
 
 def main():
